@@ -200,6 +200,8 @@ def correspondence(chk):
 
 
 def extra(chk, info, res):
+    from checks import guards_common
+    guards_common.correspondence(chk, ['filtration_allow_heating', 'filtration_ready_for_heating'])
     if info is not None:
         lean.check_theorems(chk, "Poupool.Properties.C08", ["Poupool.C08.heating_timers"])
         lean.check_theorems(chk, "Poupool.Properties.C06", ["Poupool.C06.heating_start_is_guarded", "Poupool.C06.filtration_heat_interlock"])
